@@ -132,3 +132,189 @@ Proof.
     destruct (eligible m p j) eqn:Ej; [|reflexivity]. cbn [negb orb].
     rewrite forallb_forall in Hmin. apply Hmin. rewrite <- E. apply filter_In. tauto.
 Qed.
+
+(* ---- statuses: Have is absorbing (C12), who may be served (C09), what is advertised (C11) ------- *)
+Lemma nth_set_nth {A} (l : list A) i j x : nth_error (set_nth l i x) j =
+  if Nat.eqb i j then (match nth_error l i with Some _ => Some x | None => None end) else nth_error l j.
+Proof.
+  revert i j. induction l as [|y l IH]; intros i j.
+  - cbn. destruct (Nat.eqb i j); destruct i, j; reflexivity.
+  - destruct i as [|i], j as [|j]; cbn; try reflexivity. apply IH.
+Qed.
+
+Definition have_at (st : list status) (i : nat) : Prop := nth_error st i = Some Have.
+
+Lemma have_sset st k s i : have_at st i -> (nth_error st (N.to_nat k) = Some Have -> s = Have) -> have_at (sset st k s) i.
+Proof.
+  unfold have_at, sset. intros H Hs. rewrite nth_set_nth. destruct (Nat.eqb_spec (N.to_nat k) i) as [E|]; [subst i|exact H].
+  rewrite H. f_equal. apply Hs. exact H.
+Qed.
+
+Lemma have_upd st k f st' i : upd_status st k f = Ok st' -> f Have = Have -> have_at st i -> have_at st' i.
+Proof.
+  unfold upd_status, nthN. destruct (nth_error st (N.to_nat k)) as [s|] eqn:E; [|discriminate]. intros [= <-] Hf H.
+  apply have_sset; [exact H|]. intros E2. rewrite E in E2. injection E2 as ->. exact Hf.
+Qed.
+
+Lemma have_peer_handle_piece m a p pick m' r bc sp i :
+  peer_handle_piece m a p pick = Ok (m', r, bc, sp) -> have_at (m_status m) i -> have_at (m_status m') i.
+Proof.
+  unfold peer_handle_piece. destruct pick as [c|].
+  - destruct (Peer_no_reserve_when_choked && p_choked p); [unfold out; intros [= <- _ _ _]; auto|].
+    destruct (upd_status (m_status m) c incr) as [st| | |] eqn:E; cbn [bind]; try discriminate.
+    destruct (p_choked p); [unfold out; intros [= <- _ _ _] H; cbn; apply (have_upd _ _ _ _ _ E eq_refl H)|].
+    destruct (plen_of m c); cbn [bind]; try discriminate. unfold out. intros [= <- _ _ _] H. cbn. apply (have_upd _ _ _ _ _ E eq_refl H).
+  - unfold out. intros [= <- _ _ _]. auto.
+Qed.
+
+Theorem have_absorbing m c pick m' r bc sp i :
+  mstep m c pick = Ok (m', r, bc, sp) -> have_at (m_status m) i -> have_at (m_status m') i.
+Proof.
+  destruct c; cbn [mstep]; unfold out.
+  - destruct (pget (m_peers m) a); [intros [= <- _ _ _]; auto | discriminate].
+  - destruct (pget (m_peers m) a) as [p|]; [|discriminate].
+    destruct (p_piece_index p) as [k|]; cbn [bind].
+    + destruct (upd_status (m_status m) k decr) as [st| | |] eqn:E; cbn [bind]; try discriminate.
+      intros [= <- _ _ _] H. cbn. apply (have_upd _ _ _ _ _ E eq_refl H).
+    + intros [= <- _ _ _]. auto.
+  - destruct (pget (m_peers m) a) as [p|]; [|discriminate]. destruct pick as [k|].
+    + destruct (upd_status (m_status m) k incr) as [st| | |] eqn:E; cbn [bind]; try discriminate.
+      destruct (plen_of m k); cbn [bind]; try discriminate. intros [= <- _ _ _] H. cbn. apply (have_upd _ _ _ _ _ E eq_refl H).
+    + intros [= <- _ _ _]. auto.
+  - destruct (pget (m_peers m) a); [intros [= <- _ _ _]; auto | discriminate].
+  - destruct (pget (m_peers m) a); [intros [= <- _ _ _]; auto | discriminate].
+  - destruct (pget (m_peers m) a) as [p|]; [|discriminate].
+    destruct (len (p_pieces p) <=? i0); [discriminate|].
+    destruct (nthN (m_status m) i0) as [s|] eqn:E; [|discriminate].
+    destruct (is_missing s && negb (p_am_interested p)) eqn:EM.
+    + destruct (negb (p_choked p) && match p_piece_index p with None => true | Some _ => false end).
+      * destruct (plen_of m i0); cbn [bind]; try discriminate. intros [= <- _ _ _] H. cbn.
+        apply have_sset; [exact H|]. unfold nthN in E. intros E2. rewrite E in E2. injection E2 as ->. discriminate.
+      * intros [= <- _ _ _]. auto.
+    + intros [= <- _ _ _]. auto.
+  - destruct (pget (m_peers m) a) as [p|]; [|discriminate].
+    destruct (to_vec bits (pieces_n m)); [|discriminate].
+    destruct (negb (len l =? len (p_pieces p))); [discriminate|]. intros [= <- _ _ _]. auto.
+  - destruct (pget (m_peers m) a) as [p|]; [|discriminate].
+    destruct (p_am_choked p); [intros [= <- _ _ _]; auto|].
+    destruct (pieces_n m <=? i0); [intros [= <- _ _ _]; auto|].
+    destruct (nthN (m_status m) i0) as [s|]; [|discriminate]. destruct (is_have s); intros [= <- _ _ _]; auto.
+  - destruct (pget (m_peers m) a) as [p|]; [|discriminate]. destruct (p_piece_index p) as [k|]; [|discriminate].
+    destruct (nthN (m_status m) k); [|discriminate].
+    destruct (peer_handle_piece _ a p pick) as [[[[m2 rep] bc2] sp2]| | |] eqn:E; cbn [bind]; try discriminate.
+    intros [= <- _ _ _] H. apply (have_peer_handle_piece _ _ _ _ _ _ _ _ _ E). cbn. apply have_sset; auto.
+  - destruct (pget (m_peers m) a) as [p|]; [|discriminate]. destruct (p_piece_index p) as [k|]; [|discriminate].
+    destruct (upd_status (m_status m) k decr) as [st| | |] eqn:E; cbn [bind]; try discriminate.
+    intros H1 H. apply (have_peer_handle_piece _ _ _ _ _ _ _ _ _ H1). cbn. apply (have_upd _ _ _ _ _ E eq_refl H).
+  - destruct (pget (m_peers m) a); [intros [= <- _ _ _]; auto | discriminate].
+  - (* kill *)
+    unfold kill_peer. destruct (pget (m_peers m) a) as [p|]; cbn [bind].
+    + destruct (p_piece_index p) as [k|]; cbn [bind].
+      * destruct (nthN (m_status m) k) as [s|] eqn:E; cbn [bind]; [|discriminate].
+        assert (Hs : have_at (m_status m) i -> have_at (if is_have s then m_status m else sset (m_status m) k Missing) i).
+        { intros H. destruct (is_have s) eqn:Eh; [exact H|]. apply have_sset; [exact H|]. unfold nthN in E. intros E2. rewrite E in E2. injection E2 as ->. discriminate. }
+        destruct (all_have _); [intros [= <- _ _ _] H; cbn; auto|].
+        destruct (m_candidates m); [intros [= <- _ _ _] H; cbn; auto|].
+        unfold spawn_peer. cbn [m_candidates m_peers m_status m_round m_extracted m_plens].
+        destruct (rev (p0 :: l)) as [|[a0 id] rest]; [intros [= <- _ _ _] H; cbn; auto|].
+        destruct (pget (premove (m_peers m) a) a0); intros [= <- _ _ _] H; cbn; auto.
+      * destruct (all_have _); [intros [= <- _ _ _] H; cbn; auto|].
+        destruct (m_candidates m); [intros [= <- _ _ _] H; cbn; auto|].
+        unfold spawn_peer. cbn [m_candidates m_peers m_status m_round m_extracted m_plens].
+        destruct (rev (p0 :: l)) as [|[a0 id] rest]; [intros [= <- _ _ _] H; cbn; auto|].
+        destruct (pget (premove (m_peers m) a) a0); intros [= <- _ _ _] H; cbn; auto.
+    + destruct (all_have _); [intros [= <- _ _ _] H; cbn; auto|].
+      destruct (m_candidates m); [intros [= <- _ _ _] H; cbn; auto|].
+      unfold spawn_peer. destruct (rev (m_candidates m)) as [|[a0 id] rest]; [intros [= <- _ _ _] H; cbn; auto|].
+      destruct (pget (m_peers m) a0); intros [= <- _ _ _] H; cbn; auto.
+Qed.
+
+(* C09, manager side: a piece is loaded for a peer only while we have it unchoked, only a piece we own *)
+Theorem load_only_unchoked_owned m a i pick m' j bc sp :
+  mstep m (CRequest a i) pick = Ok (m', RReq_Load j, bc, sp) ->
+  j = i /\ m' = m /\ i < pieces_n m /\ nthN (m_status m) i = Some Have /\
+  exists p, pget (m_peers m) a = Some p /\ p_am_choked p = false.
+Proof.
+  cbn [mstep]. unfold out. destruct (pget (m_peers m) a) as [p|] eqn:Ep; [|discriminate].
+  destruct (p_am_choked p) eqn:Ec; [discriminate|].
+  destruct (N.leb_spec (pieces_n m) i); [discriminate|].
+  destruct (nthN (m_status m) i) as [s|] eqn:Es; [|discriminate].
+  destruct s; cbn [is_have]; try discriminate. intros [= <- <- _ _].
+  repeat split; auto. exists p. split; [reflexivity | exact Ec].
+Qed.
+
+(* C11, manager side: the bitfield handed to a connection marks exactly the pieces that are Have, and a
+   SendHave broadcast for i happens only when a connection reports piece i done, with i Have from then on *)
+Theorem init_bitfield m a id pick m' r bc sp : mstep m (CInit a id) pick = Ok (m', r, bc, sp) ->
+  r = RBitfield (map is_have (m_status m)) /\ bc = [].
+Proof. cbn [mstep]. unfold out. destruct (pget (m_peers m) a); [intros [= _ <- <- _]; auto | discriminate]. Qed.
+
+Theorem have_broadcast_only_when_done m c pick m' r bc sp i : mstep m c pick = Ok (m', r, bc, sp) -> In (BHave i) bc ->
+  exists a p, c = CPieceDone a /\ pget (m_peers m) a = Some p /\ p_piece_index p = Some i /\
+              have_at (m_status m') (N.to_nat i).
+Proof.
+  destruct c; cbn [mstep]; unfold out;
+    try (destruct (pget (m_peers m) a) as [p|] eqn:Ep; [|discriminate]);
+    try (intros [= _ _ <- _] []; fail).
+  - destruct (p_piece_index p); cbn [bind]; [destruct (upd_status _ _ _); cbn [bind]; try discriminate|]; intros [= _ _ <- _] [].
+  - destruct pick; [destruct (upd_status _ _ _); cbn [bind]; try discriminate; destruct (plen_of _ _); cbn [bind]; try discriminate|]; intros [= _ _ <- _] [].
+  - destruct (len (p_pieces p) <=? i0); [discriminate|]. destruct (nthN (m_status m) i0); [|discriminate].
+    destruct (_ && _); [destruct (_ && _); [destruct (plen_of _ _); cbn [bind]; try discriminate|]|]; intros [= _ _ <- _] [].
+  - destruct (to_vec _ _); [|discriminate]. destruct (negb _); [discriminate|]. intros [= _ _ <- _] [].
+  - destruct (p_am_choked p); [intros [= _ _ <- _] []|]. destruct (pieces_n m <=? i0); [intros [= _ _ <- _] []|].
+    destruct (nthN _ _); [|discriminate]. destruct (is_have _); intros [= _ _ <- _] [].
+  - (* piece done *)
+    destruct (p_piece_index p) as [k|] eqn:Ek; [|discriminate].
+    destruct (nthN (m_status m) k) as [sk|] eqn:Esk; [|discriminate].
+    destruct (peer_handle_piece _ a p pick) as [[[[m2 rep] bc2] sp2]| | |] eqn:E; cbn [bind]; try discriminate.
+    intros [= <- _ <- _] [[= <-]|[]]. exists a, p. split; [reflexivity|]. split; [exact Ep|]. split; [exact Ek|].
+    apply (have_peer_handle_piece _ _ _ _ _ _ _ _ _ E). cbn. unfold have_at, sset. rewrite nth_set_nth, Nat.eqb_refl.
+    unfold nthN in Esk. rewrite Esk. reflexivity.
+  - destruct (p_piece_index p); [|discriminate]. destruct (upd_status _ _ _) as [st| | |]; cbn [bind]; try discriminate.
+    unfold peer_handle_piece. destruct pick.
+    + destruct (_ && p_choked p); [unfold out; intros [= _ _ <- _] []|].
+      destruct (upd_status _ _ _); cbn [bind]; try discriminate. destruct (p_choked p); [unfold out; intros [= _ _ <- _] []|].
+      destruct (plen_of _ _); cbn [bind]; try discriminate. unfold out. intros [= _ _ <- _] [].
+    + unfold out. intros [= _ _ <- _] [].
+  - destruct (kill_peer m a) as [mk| | |]; cbn [bind]; try discriminate. destruct (all_have _); [intros [= _ _ <- _] []|].
+    destruct (m_candidates mk); [intros [= _ _ <- _] []|]. destruct (spawn_peer mk). intros [= _ _ <- _] [].
+Qed.
+
+(* ---- C14: upload slots ----------------------------------------------------------------------- *)
+Definition regular_slot (p : peer) : bool := negb (p_am_choked p) && negb (p_optimistic p).
+Definition regular_unchoked (ps : list (addr * peer)) : N := len (filter (fun kp => regular_slot (snd kp)) ps).
+Definition b2n (b : bool) : N := if b then 1 else 0.
+
+Lemma count_pset (f : peer -> bool) ps a p p' : pget ps a = Some p ->
+  len (filter (fun kp => f (snd kp)) (pset ps a p')) + b2n (f p) = len (filter (fun kp => f (snd kp)) ps) + b2n (f p').
+Proof.
+  induction ps as [|[k q] ps IH]; cbn [pget pset]; [discriminate|].
+  destruct (k =? a) eqn:E.
+  - intros [= ->]. cbn [filter snd]. destruct (f p), (f p'); cbn [b2n]; rewrite ?len_cons; lia.
+  - intros H. specialize (IH H). cbn [filter snd]. destruct (f q); rewrite ?len_cons; lia.
+Qed.
+
+(* a newcomer's bitfield never takes the regular slots above ten *)
+Theorem bitfield_keeps_bound m a bits pick m' r bc sp :
+  Session_unchoked_counts_regular = true ->
+  mstep m (CBitfield a bits) pick = Ok (m', r, bc, sp) ->
+  regular_unchoked (m_peers m) <= 10 -> regular_unchoked (m_peers m') <= 10.
+Proof.
+  intros F. cbn [mstep]. unfold out. destruct (pget (m_peers m) a) as [p|] eqn:Ep; [|discriminate].
+  destruct (to_vec bits (pieces_n m)) as [v|]; [|discriminate].
+  destruct (negb (len v =? len (p_pieces p))); [discriminate|]. rewrite F.
+  intros [= <- _ _ _] Hb. cbn [m_peers with_peer].
+  pose proof (count_pset regular_slot (m_peers m) a p (set_pieces p v) Ep) as C1.
+  change (fun kp : addr * peer => negb (p_am_choked (snd kp)) && negb (p_optimistic (snd kp))) with (fun kp : addr * peer => regular_slot (snd kp)).
+  fold (regular_unchoked (pset (m_peers m) a (set_pieces p v))).
+  assert (E1 : regular_unchoked (pset (m_peers m) a (set_pieces p v)) = regular_unchoked (m_peers m)).
+  { unfold regular_unchoked. unfold regular_slot in C1 at 2 4. cbn [set_pieces p_am_choked p_optimistic] in C1. fold (regular_slot p) in C1. lia. }
+  rewrite E1. set (u := (regular_unchoked (m_peers m) <? MAX_UNCHOKED) && p_am_choked p).
+  pose proof (count_pset regular_slot (m_peers m) a p
+                (set_am (set_pieces p v) (match pick with Some _ => true | None => false end) (if u then false else p_am_choked p)) Ep) as C2.
+  unfold regular_unchoked in *. unfold regular_slot in C2 at 2 4. cbn [set_am set_pieces p_am_choked p_optimistic] in C2.
+  unfold MAX_UNCHOKED in u. destruct u eqn:Eu.
+  - apply andb_true_iff in Eu. destruct Eu as [E2 E3]. rewrite E3 in C2. cbn [negb andb b2n] in C2.
+    destruct (negb (p_optimistic p)); cbn [b2n] in C2; lia.
+  - destruct (p_am_choked p); cbn [negb andb b2n] in C2; [lia|]. destruct (negb (p_optimistic p)); cbn [b2n] in C2; lia.
+Qed.
